@@ -59,6 +59,8 @@ type Act struct {
 	nilOK                 []nilSeen
 	measure0              Term // function-level decreases measure at entry
 	seenObl               map[string]bool
+	onceCells             map[Term]bool   // refs of write-once captured variables (top activation)
+	onceVals              map[Term]Term   // their fixed values once stored
 	lastPerm, lastPermInv Term            // permutation witness of the most recent sort call (spec builtins perm(i), perminv(j))
 	staticTraced          map[string]bool // callback names that are statically called functions (set on the top activation)
 	qn                    *int
@@ -256,6 +258,9 @@ func (a *Act) loadPtr(st *State, p Val, pos token.Pos, what string) Term {
 			v, _ = a.project(v, p.Loc.RootT, p.Loc.Path)
 		}
 		a.assumeAllocated(st, v, elem)
+		return v
+	}
+	if v, ok := a.top.onceVals[p.T]; ok {
 		return v
 	}
 	a.checkNonNil(st, p.T, pos, what)
